@@ -1,4 +1,6 @@
 import Exetera.Lemmas.Merge
+import Exetera.Lemmas.MergeFrame
+import Exetera.Lemmas.MergeWhole
 import Exetera.Props.C03
 /-!
 # C02 — DataFrame.merge returns the relational join; hints change speed, never content
@@ -17,9 +19,11 @@ What is proved here, for all inputs:
     source rows, empty value where the side is unmatched — also for the non-monotone maps of joins with duplicate keys
     on both sides (C04 as generalised for NC02a), every chunk size;
   * `hints_irrelevant_maps` — the selections behind the maps do not depend on the unique hints.
-`merge_correct_partial` puts these together per destination column of the ordered path. The full statements
-(`merge_correct`, `hints_irrelevant`, `never_raises_on_truthful_hints`) are kept in a comment at the end of this file
-together with exactly what is missing.
+`merge_correct_partial` / `merge_ordered_columns_correct` put these together per destination column of the ordered path;
+`merge_frame_correct_partial`, `hints_irrelevant_partial`, `never_raises_on_truthful_hints_partial` are the statements over the
+whole-frame model function `merge` (front end, both paths, destination frame, all four modes). They are `_partial` for ONE
+reason, the open finding NC02c (an indexed-string entry longer than the streamed value buffer makes the hinted call raise);
+the full statements and every hypothesis are listed at the end of this file.
 -/
 namespace Exetera.Props.C02
 
@@ -286,8 +290,8 @@ example : Truthful true [1, 3, 4] ∧ Truthful false [1, 1] := ⟨fun _ => by de
     the relational join — the same list of result rows for all columns of both sides, so the destination columns have
     equal length and row `r` of the destination is (left row | empty, right row | empty) of the `r`-th relational-join
     row; a side that has no map field is copied unchanged.
-    Missing for the full statement: see the comment at the end of the file (hypotheses `hselL`/`hselR` are facts about
-    `Spec.leftJoin`/`innerJoin` that are not proved here). -/
+    The hypotheses `hselL`/`hselR` are facts about `Spec.leftJoin`/`innerJoin`; they are discharged in
+    `merge_ordered_columns_correct`, and the whole frame is `merge_frame_correct_partial` (below). -/
 theorem merge_correct_partial (how : String) (hhow : how = "left" ∨ how = "right" ∨ how = "inner") (lu ru : Bool)
     (lk rk : List Int) (hl : Sorted lk) (hr : Sorted rk) (hlu : Truthful lu lk) (hru : Truthful ru rk)
     (cs vf : Nat) (hcs : 1 ≤ cs) (inv : Int) (hinvL : (lk.length : Int) ≤ inv) (hinvR : (rk.length : Int) ≤ inv)
@@ -328,35 +332,510 @@ example : (leftSel "left" [0, 2, 2] [2, 2, 5]).all (fun o => match o with | some
     (rightSel "left" [0, 2, 2] [2, 2, 5]).all (fun o => match o with | some j => decide (j < 3) | none => true) = true := by
   decide
 
+/-! ## the spec facts behind `hselL` / `hselR`, and the ordered path without them -/
+
+/-- **Row numbers of the relational join are in range** (every mode): a result row never names a left row beyond the
+    left frame. -/
+theorem leftSel_in_range (how : String) (lk rk : List Int) : ∀ i, some i ∈ leftSel how lk rk → i < lk.length :=
+  sel_left_in_range how lk rk
+
+/-- … nor a right row beyond the right frame. -/
+theorem rightSel_in_range (how : String) (lk rk : List Int) : ∀ j, some j ∈ rightSel how lk rk → j < rk.length :=
+  sel_right_in_range how lk rk
+
+/-- **A side without map field is selected row by row.** `_ordered_merge` leaves a side without `_left_map` /
+    `_right_map` (and copies its columns with `chunked_copy`) only when that side drives the join and the OTHER side's
+    keys are hinted unique; for a truthful hint the relational join then takes every row of the driving side exactly once,
+    in order — so the unchanged copy IS the selected rows. -/
+theorem no_map_is_identity (how : String) (hhow : how = "left" ∨ how = "right" ∨ how = "inner") (lu ru : Bool)
+    (lk rk : List Int) (hlu : Truthful lu lk) (hru : Truthful ru rk) (p : Plan) (hp : plan how lu ru = .ok p) :
+    (p.leftMap = none → leftSel how lk rk = idSel lk.length) ∧
+    (p.rightMap = none → rightSel how lk rk = idSel rk.length) := by
+  obtain ⟨d1, d2, d3, d4, d5, d6, d7, d8, d9, d10, d11, d12⟩ := dispatch_table
+  rcases hhow with h | h | h <;> subst h <;> cases lu <;> cases ru
+  · rw [d1] at hp; cases hp; exact ⟨nofun, nofun⟩
+  · rw [d3] at hp; cases hp
+    exact ⟨fun _ => (by rw [leftSel_left]; exact leftJoin_sel_of_nodup (nodup_of_strict (hru rfl))), nofun⟩
+  · rw [d2] at hp; cases hp; exact ⟨nofun, nofun⟩
+  · rw [d4] at hp; cases hp
+    exact ⟨fun _ => (by rw [leftSel_left]; exact leftJoin_sel_of_nodup (nodup_of_strict (hru rfl))), nofun⟩
+  · rw [d5] at hp; cases hp; exact ⟨nofun, nofun⟩
+  · rw [d7] at hp; cases hp; exact ⟨nofun, nofun⟩
+  · rw [d6] at hp; cases hp
+    exact ⟨nofun, fun _ => (by rw [rightSel_right]; exact leftJoin_sel_of_nodup (nodup_of_strict (hlu rfl)))⟩
+  · rw [d8] at hp; cases hp
+    exact ⟨nofun, fun _ => (by rw [rightSel_right]; exact leftJoin_sel_of_nodup (nodup_of_strict (hlu rfl)))⟩
+  · rw [d9] at hp; cases hp; exact ⟨nofun, nofun⟩
+  · rw [d11] at hp; cases hp; exact ⟨nofun, nofun⟩
+  · rw [d10] at hp; cases hp; exact ⟨nofun, nofun⟩
+  · rw [d12] at hp; cases hp; exact ⟨nofun, nofun⟩
+
+/-- left join against unique right keys (`how='left'`, `hint_right_keys_unique`): the left side has no map and is taken row by row -/
+example : leftSel "left" [0, 2, 2, 7] [2, 5] = idSel 4 := by decide
+
+/-- **The ordered path, column by column, with no hypothesis about the specification left.** As `merge_correct_partial`,
+    but the in-range facts are proved (`leftSel_in_range`, `rightSel_in_range`) and a copied side is shown to be the
+    selected rows too (`no_map_is_identity`, `selectCol_id`): for `how ∈ {left, right, inner}`, every truthful unique-hint
+    combination, ordered key columns, every chunk size ≥ 1, a marker not below either frame length: the dispatched
+    generator succeeds and EVERY well-formed column of the left (right) frame becomes, without error, exactly
+    `selectCol col (leftSel how lk rk)` (`rightSel`): row `r` of every destination column is the source row the `r`-th row
+    of the relational join names, or the empty value where that side is unmatched. -/
+theorem merge_ordered_columns_correct (how : String) (hhow : how = "left" ∨ how = "right" ∨ how = "inner") (lu ru : Bool)
+    (lk rk : List Int) (hl : Sorted lk) (hr : Sorted rk) (hlu : Truthful lu lk) (hru : Truthful ru rk)
+    (cs vf : Nat) (hcs : 1 ≤ cs) (inv : Int) (hinvL : (lk.length : Int) ≤ inv) (hinvR : (rk.length : Int) ≤ inv)
+    (fuel : Nat) (hfuel : lk.length + rk.length + 2 * (relJoin how lk rk).length + 1 ≤ fuel) :
+    ∃ p o, plan how lu ru = .ok p ∧
+      Join.streamed p.variant fuel cs inv (if p.aLeft then lk else rk) (if p.aLeft then rk else lk) = .ok o ∧
+      (∀ m, leftMapOf p o = some m → m = encSel inv (leftSel how lk rk)) ∧
+      (∀ m, rightMapOf p o = some m → m = encSel inv (rightSel how lk rk)) ∧
+      (∀ col, ColOK col lk.length (cs * vf) →
+        ∃ out, mapColumn "left" col (leftMapOf p o) inv cs vf = .ok out ∧ selectCol col (leftSel how lk rk) = some out) ∧
+      (∀ col, ColOK col rk.length (cs * vf) →
+        ∃ out, mapColumn "right" col (rightMapOf p o) inv cs vf = .ok out ∧ selectCol col (rightSel how lk rk) = some out) := by
+  obtain ⟨p, o, h1, h2, h3, h4⟩ := merge_correct_partial how hhow lu ru lk rk hl hr hlu hru cs vf hcs inv hinvL hinvR fuel
+    hfuel (leftSel_in_range how lk rk) (rightSel_in_range how lk rk)
+  obtain ⟨p', o', h1', h2', m1, m2⟩ := ordered_maps_correct how hhow lu ru lk rk hl hr hlu hru cs (by omega) inv fuel hfuel
+  have hpp : p' = p := by rw [h1] at h1'; cases h1'; rfl
+  subst hpp
+  have hoo : o' = o := by rw [h2] at h2'; cases h2'; rfl
+  subst hoo
+  obtain ⟨n1, n2⟩ := no_map_is_identity how hhow lu ru lk rk hlu hru p' h1
+  refine ⟨p', o', h1, h2, m1, m2, ?_, ?_⟩
+  · intro col hcol
+    obtain ⟨out, g1, g2, g3⟩ := h3 col hcol
+    refine ⟨out, g1, ?_⟩
+    cases hm : leftMapOf p' o' with
+    | some m => exact g2 (by simp [hm])
+    | none =>
+      have hpl : p'.leftMap = none := by
+        cases hq : p'.leftMap with
+        | none => rfl
+        | some b => simp [leftMapOf, hq] at hm
+      rw [g3 hm, n1 hpl]
+      exact selectCol_id hcol
+  · intro col hcol
+    obtain ⟨out, g1, g2, g3⟩ := h4 col hcol
+    refine ⟨out, g1, ?_⟩
+    cases hm : rightMapOf p' o' with
+    | some m => exact g2 (by simp [hm])
+    | none =>
+      have hpl : p'.rightMap = none := by
+        cases hq : p'.rightMap with
+        | none => rfl
+        | some b => simp [rightMapOf, hq] at hm
+      rw [g3 hm, n2 hpl]
+      exact selectCol_id hcol
+
+/-- **Key order on the ordered path**: for `how ∈ {left, right, inner}` and sorted key columns, every row of the relational
+    join — the row list the ordered path produces, in that order (`merge_ordered_columns_correct`) — has a key
+    (`Spec.rowKey`: the key of whichever side is present), and these keys are non-decreasing from row to row. -/
+theorem ordered_path_key_order (how : String) (hhow : how = "left" ∨ how = "right" ∨ how = "inner") (lk rk : List Int)
+    (hl : Sorted lk) (hr : Sorted rk) :
+    ∃ ks, (relJoin how lk rk).map (rowKey lk rk) = ks.map some ∧ Sorted ks :=
+  relJoin_keys_sorted how hhow hl hr
+
+example : (relJoin "right" [0, 2, 2] [2, 5, 5]).map (rowKey [0, 2, 2] [2, 5, 5]) = [2, 2, 5, 5].map some := by decide
+
+/-! ## the whole destination frame: `merge_frame_correct_partial`, `hints_irrelevant_partial`, `never_raises_on_truthful_hints_partial` -/
+
+/-- the names `merge` reserves for its own fields in the destination: the two map fields of the ordered path and the two
+    validity flags of the unordered path -/
+def auxNames (i : Input) : List String :=
+  ["_left_map", "_right_map", "valid" ++ i.leftSuffix, "valid" ++ i.rightSuffix]
+
+/-- **truthful hints**: an ordered hint is only given for a non-decreasing key column, a unique hint only for a key column
+    without duplicates (`lk` / `rk` are the order embedding of the key tuples) -/
+structure TruthfulHints (i : Input) : Prop where
+  leftOrdered : i.hintLO = some true → Sorted i.lk
+  rightOrdered : i.hintRO = some true → Sorted i.rk
+  leftUnique : i.hintLU = some true → i.lk.Nodup
+  rightUnique : i.hintRU = some true → i.rk.Nodup
+
+/-- **the frames the property speaks about**: a join mode of the property; `left_on` / `right_on` of the same shape, naming
+    non-indexed columns as long as the key embedding; every field to map exists, is as long as its side's key column, an
+    indexed-string field is well formed (C01) and none of its entries exceeds the value buffer `cs * vf` of the streamed
+    mapper (the supported regime of C04; `1 << 23` bytes with the defaults); the destination names — the four reserved
+    names and the documented (suffixed) names of the mapped fields — are pairwise distinct; fewer than 2^62 rows per
+    side (the int64 marker `INVALID_INDEX_64`); chunk size ≥ 1. -/
+structure WellFormed (i : Input) (cs vf : Nat) : Prop where
+  how : i.how = "left" ∨ i.how = "right" ∨ i.how = "inner" ∨ i.how = "outer"
+  tuples : i.leftTuple = i.rightTuple
+  tupleLen : i.leftTuple = true → i.leftOn.length = i.rightOn.length
+  leftOn : i.leftOn ≠ []
+  rightOn : i.rightOn ≠ []
+  leftKeys : ∀ k ∈ i.leftOn, ∃ c, look i.left k = some c ∧ c.isIndexed = false ∧ c.len = i.lk.length
+  rightKeys : ∀ k ∈ i.rightOn, ∃ c, look i.right k = some c ∧ c.isIndexed = false ∧ c.len = i.rk.length
+  leftCols : ∀ k ∈ leftToMap i, ∃ c, look i.left k = some c ∧ ColOK c i.lk.length (cs * vf)
+  rightCols : ∀ k ∈ rightToMap i, ∃ c, look i.right k = some c ∧ ColOK c i.rk.length (cs * vf)
+  names : (auxNames i ++ (leftToMap i).map (leftName i) ++ (rightToMap i).map (rightName i)).Nodup
+  sizeL : i.lk.length ≤ 4611686018427387904
+  sizeR : i.rk.length ≤ 4611686018427387904
+  chunk : 1 ≤ cs
+
+/-- the recorded ASSUMPTION about `pandas.merge` (a parameter of the model; the harness checks it on every case that takes
+    the unordered path): on the key columns it returns the rows of the relational join, in some order -/
+def PandasOK (pandas : String → List Int → List Int → Except Err Pairs) (i : Input) : Prop :=
+  ∃ pairs, pandas i.how i.lk i.rk = .ok pairs ∧ pairs.Perm (relJoin i.how i.lk i.rk)
+
+/-- **`dest` is the table whose rows are `rows`**: under its documented name (`leftName` / `rightName`: suffixed exactly
+    when the other side maps a field of the same name) every mapped field of the left (right) frame holds, in row `r`,
+    the source value at the left (right) row number of `rows[r]`, or the type's empty value where that side is unmatched;
+    every column of `dest` has `rows.length` rows; `dest` has no column besides these and `merge`'s reserved ones. -/
+structure IsJoinFrame (i : Input) (dest : Frame) (rows : List JoinRow) : Prop where
+  left : ∀ k ∈ leftToMap i, ∀ c, look i.left k = some c →
+    ∃ out, look dest (leftName i k) = some out ∧ selectCol c (rows.map (·.1)) = some out
+  right : ∀ k ∈ rightToMap i, ∀ c, look i.right k = some c →
+    ∃ out, look dest (rightName i k) = some out ∧ selectCol c (rows.map (·.2)) = some out
+  len : ∀ n c, look dest n = some c → c.len = rows.length
+  cols : ∀ n ∈ names dest, n ∈ auxNames i ∨ n ∈ (leftToMap i).map (leftName i) ∨ n ∈ (rightToMap i).map (rightName i)
+
+theorem getD_true {o : Option Bool} (h : o.getD false = true) : o = some true := by
+  cases o with
+  | none => cases h
+  | some b => cases b <;> simp_all
+
+/-- **C02, `merge_correct` — partial because of NC02c only.** Full statement: the same with `WellFormed` not bounding the
+    length of indexed-string entries (`ColOK … cap` for any `cap`). That is false for the code as it is: on the ordered path
+    `ordered_map_valid_indexed_stream` raises its "entry does not fit the value buffer" `ValueError` for an entry longer
+    than `chunksize * value_factor` (2^23 bytes with the defaults) while the hint-free call succeeds (witness
+    `Exetera.Witness.C02.nc02c_long_entry_raises_only_with_hints`; open finding NC02c). Proved here, with that bound in
+    `WellFormed.leftCols` / `rightCols` (needed on the ordered path only): for every join mode left / right / inner / outer, every truthful combination of the four
+    hints, all well-formed frames (single or compound keys, field subsets, name clashes, every field type incl. indexed
+    strings), every chunk size ≥ 1, and — only where the call takes the unordered path — `pandas.merge` assumed to
+    return a permutation of the relational join:
+    `merge` succeeds, and its destination frame is the table of a row list `rows` that is a permutation of
+    `relJoin how lk rk` — same multiset of (left columns | empty, right columns | empty) rows, every destination column
+    of equal length, clashing names suffixed as documented. On the ordered path (`isOrdered`: both ordered hints, single
+    key, mode ≠ outer) `rows` IS `relJoin how lk rk` in its own order, and the row keys are non-decreasing. -/
+theorem merge_frame_correct_partial (pandas : String → List Int → List Int → Except Err Pairs) (i : Input) (cs vf fuel : Nat)
+    (hwf : WellFormed i cs vf) (hth : TruthfulHints i) (hpd : isOrdered i = false → PandasOK pandas i)
+    (hfuel : i.lk.length + i.rk.length + 2 * (relJoin i.how i.lk i.rk).length + 1 ≤ fuel) :
+    ∃ dest rows, merge pandas i cs vf fuel = .ok dest ∧ rows.Perm (relJoin i.how i.lk i.rk) ∧ IsJoinFrame i dest rows ∧
+      (isOrdered i = true → rows = relJoin i.how i.lk i.rk ∧
+        ∃ ks, rows.map (rowKey i.lk i.rk) = ks.map some ∧ Sorted ks) := by
+  have hsup : supportedModes.contains i.how = true := by
+    rcases hwf.how with h | h | h | h <;> rw [h] <;> decide
+  rw [merge_front pandas i cs vf fuel hsup hwf.tuples hwf.tupleLen hwf.leftOn hwf.rightOn hwf.leftKeys hwf.rightKeys
+    (fun k hk => by obtain ⟨c, h1, h2⟩ := hwf.leftCols k hk; exact ⟨c, h1, h2.len⟩)
+    (fun k hk => by obtain ⟨c, h1, h2⟩ := hwf.rightCols k hk; exact ⟨c, h1, h2.len⟩) hwf.names]
+  cases hord : isOrdered i with
+  | true =>
+    simp only [if_true]
+    -- what `ordered` means
+    simp only [isOrdered, Bool.and_eq_true] at hord
+    obtain ⟨⟨⟨⟨o1, o2⟩, _⟩, _⟩, o5⟩ := hord
+    have hhow : i.how = "left" ∨ i.how = "right" ∨ i.how = "inner" := by simpa using o5
+    have hl : Sorted i.lk := hth.leftOrdered (getD_true o1)
+    have hr : Sorted i.rk := hth.rightOrdered (getD_true o2)
+    have hlu : Truthful (i.hintLU.getD false) i.lk := fun h => strict_of_sorted_nodup hl (hth.leftUnique (getD_true h))
+    have hru : Truthful (i.hintRU.getD false) i.rk := fun h => strict_of_sorted_nodup hr (hth.rightUnique (getD_true h))
+    have hs := sentinel_choice (i.hintLU.getD false) (i.hintRU.getD false) i.lk.length i.rk.length
+    generalize hinv : (if (i.hintLU.getD false || i.hintRU.getD false) = true then
+      (if ((i.lk.length : Int) < 2147483647 && (i.rk.length : Int) < 2147483647) = true then (2147483647 : Int)
+        else 4611686018427387904) else 4611686018427387904) = inv at hs
+    have hsl := hwf.sizeL
+    have hsr := hwf.sizeR
+    have hinvLR : (i.lk.length : Int) ≤ inv ∧ (i.rk.length : Int) ≤ inv := by
+      rw [← hinv]
+      split
+      · split
+        · rename_i hc
+          simp only [Bool.and_eq_true, decide_eq_true_eq] at hc
+          omega
+        · omega
+      · omega
+    obtain ⟨p, o, h1, h2, m1, m2, c1, c2⟩ := merge_ordered_columns_correct i.how hhow (i.hintLU.getD false)
+      (i.hintRU.getD false) i.lk i.rk hl hr hlu hru cs vf hwf.chunk inv hinvLR.1 hinvLR.2 fuel hfuel
+    obtain ⟨dest, d1, d2, d3, d4, d5⟩ := orderedMerge_frame i (leftToMap i) (rightToMap i) i.lk.length i.rk.length
+      (i.hintLU.getD false) (i.hintRU.getD false) cs vf fuel inv p o (leftSel i.how i.lk i.rk) (rightSel i.how i.lk i.rk)
+      (relJoin i.how i.lk i.rk).length o5 hs h1 h2
+      (fun m hm => by rw [m1 m hm]; simp [encSel, leftSel])
+      (fun m hm => by rw [m2 m hm]; simp [encSel, rightSel])
+      (by simp [leftSel]) (by simp [rightSel])
+      (fun k hk => by
+        obtain ⟨c, g1, g2⟩ := hwf.leftCols k hk
+        obtain ⟨out, g3, g4⟩ := c1 c g2
+        exact ⟨c, out, g1, g3, g4⟩)
+      (fun k hk => by
+        obtain ⟨c, g1, g2⟩ := hwf.rightCols k hk
+        obtain ⟨out, g3, g4⟩ := c2 c g2
+        exact ⟨c, out, g1, g3, g4⟩)
+      (nodup_ordered_names _ _ _ _ _ _ hwf.names)
+    refine ⟨dest, relJoin i.how i.lk i.rk, d1, List.Perm.refl _, ⟨d2, d3, d4, ?_⟩, fun _ => ⟨rfl, ?_⟩⟩
+    · intro n hn
+      rcases d5 n hn with h | h | h
+      · left
+        simp only [auxNames, List.mem_cons] at h ⊢
+        rcases h with h | h | h
+        · exact Or.inl h
+        · exact Or.inr (Or.inl h)
+        · cases h
+      · exact Or.inr (Or.inl h)
+      · exact Or.inr (Or.inr h)
+    · exact ordered_path_key_order i.how hhow i.lk i.rk hl hr
+  | false =>
+    simp only [Bool.false_eq_true, if_false]
+    obtain ⟨pairs, hp1, hp2⟩ := hpd hord
+    obtain ⟨dest, d1, d2, d3, d4, d5⟩ := unorderedMerge_frame pandas i (leftToMap i) (rightToMap i) pairs (cs * vf) hp1
+      (fun x hx => by
+        obtain ⟨q, hq, hqx⟩ := List.mem_map.mp hx
+        exact (relJoin_in_range i.how i.lk i.rk q (hp2.subset hq)).1 x hqx)
+      (fun x hx => by
+        obtain ⟨q, hq, hqx⟩ := List.mem_map.mp hx
+        exact (relJoin_in_range i.how i.lk i.rk q (hp2.subset hq)).2 x hqx)
+      hwf.leftCols hwf.rightCols (nodup_unordered_names _ _ _ _ _ _ hwf.names)
+    refine ⟨dest, pairs, d1, hp2, ⟨d2, d3, d4, ?_⟩, fun h => by cases h⟩
+    intro n hn
+    rcases d5 n hn with h | h | h
+    · left
+      simp only [auxNames, List.mem_cons] at h ⊢
+      rcases h with h | h | h
+      · exact Or.inr (Or.inr (Or.inl h))
+      · exact Or.inr (Or.inr (Or.inr (Or.inl h)))
+      · cases h
+    · exact Or.inr (Or.inl h)
+    · exact Or.inr (Or.inr h)
+
+/-- the same call without any hint -/
+def noHints (i : Input) : Input := { i with hintLO := none, hintLU := none, hintRO := none, hintRU := none }
+
+/-- **C02, `hints_irrelevant` — partial because of NC02c only** (see `merge_frame_correct_partial`; the full statement has no
+    bound on entry lengths in `WellFormed`). With truthful hints `merge` produces the same table as the hint-free call: both succeed,
+    both destinations are the table (`IsJoinFrame`: same fields, same documented names, every column the selected source
+    rows) of a row list, and the two row lists are permutations of each other — the hints change which code runs (streamed
+    generators vs `pandas.merge`) and the row order, never the multiset of (left columns, right columns) rows. -/
+theorem hints_irrelevant_partial (pandas : String → List Int → List Int → Except Err Pairs) (i : Input) (cs vf fuel : Nat)
+    (hwf : WellFormed i cs vf) (hth : TruthfulHints i) (hpd : PandasOK pandas i)
+    (hfuel : i.lk.length + i.rk.length + 2 * (relJoin i.how i.lk i.rk).length + 1 ≤ fuel) :
+    ∃ dest dest0 rows rows0, merge pandas i cs vf fuel = .ok dest ∧ merge pandas (noHints i) cs vf fuel = .ok dest0 ∧
+      rows.Perm rows0 ∧ IsJoinFrame i dest rows ∧ IsJoinFrame i dest0 rows0 := by
+  obtain ⟨dest, rows, a1, a2, a3, _⟩ := merge_frame_correct_partial pandas i cs vf fuel hwf hth (fun _ => hpd) hfuel
+  have hwf0 : WellFormed (noHints i) cs vf :=
+    ⟨hwf.how, hwf.tuples, hwf.tupleLen, hwf.leftOn, hwf.rightOn, hwf.leftKeys, hwf.rightKeys, hwf.leftCols, hwf.rightCols,
+      hwf.names, hwf.sizeL, hwf.sizeR, hwf.chunk⟩
+  have hth0 : TruthfulHints (noHints i) := ⟨nofun, nofun, nofun, nofun⟩
+  obtain ⟨dest0, rows0, b1, b2, b3, _⟩ := merge_frame_correct_partial pandas (noHints i) cs vf fuel hwf0 hth0 (fun _ => hpd) hfuel
+  exact ⟨dest, dest0, rows, rows0, a1, b1, a2.trans b2.symm, a3, ⟨b3.left, b3.right, b3.len, b3.cols⟩⟩
+
+/-- **C02, `never_raises_on_truthful_hints` — partial because of NC02c only** (the full statement has no bound on entry
+    lengths in `WellFormed`; as found a hinted call raises for an entry above 2^23 bytes). Under the same hypotheses no error of any kind comes out of `merge`: no
+    validation error, no `TypeError` / `ValueError` of the dispatch, no out-of-bounds access or exhausted fuel in a streamed
+    generator or column mapper, no "field already exists". -/
+theorem never_raises_on_truthful_hints_partial (pandas : String → List Int → List Int → Except Err Pairs) (i : Input)
+    (cs vf fuel : Nat) (hwf : WellFormed i cs vf) (hth : TruthfulHints i)
+    (hpd : isOrdered i = false → PandasOK pandas i)
+    (hfuel : i.lk.length + i.rk.length + 2 * (relJoin i.how i.lk i.rk).length + 1 ≤ fuel) :
+    ∀ e, merge pandas i cs vf fuel ≠ .error e := by
+  obtain ⟨dest, _, h, _⟩ := merge_frame_correct_partial pandas i cs vf fuel hwf hth hpd hfuel
+  intro e he
+  rw [h] at he
+  cases he
+
+/-- arguments that pass the validators of `merge` (the part of `WellFormed` that is not about names, entry sizes or frame
+    sizes) -/
+structure ArgsOK (i : Input) : Prop where
+  how : i.how = "left" ∨ i.how = "right" ∨ i.how = "inner" ∨ i.how = "outer"
+  tuples : i.leftTuple = i.rightTuple
+  tupleLen : i.leftTuple = true → i.leftOn.length = i.rightOn.length
+  leftOn : i.leftOn ≠ []
+  rightOn : i.rightOn ≠ []
+  leftKeys : ∀ k ∈ i.leftOn, ∃ c, look i.left k = some c ∧ c.isIndexed = false ∧ c.len = i.lk.length
+  rightKeys : ∀ k ∈ i.rightOn, ∃ c, look i.right k = some c ∧ c.isIndexed = false ∧ c.len = i.rk.length
+  leftCols : ∀ k ∈ leftToMap i, ∃ c, look i.left k = some c ∧ c.len = i.lk.length
+  rightCols : ∀ k ∈ rightToMap i, ∃ c, look i.right k = some c ∧ c.len = i.rk.length
+
+/-- **A clash among the destination names is a `ValueError` before anything is written — with and without hints** (fix
+    NC02b). This is the guard `WellFormed.names` excludes: a source field called `_left_map`, `_right_map`, `valid_l` or
+    `valid_r`, or two mapped fields with the same (suffixed) destination name. As found, such a call raised or succeeded
+    depending on the hints (`_left_map`: only the ordered path raised; `valid_l`: only the unordered one). -/
+theorem name_clash_rejected (pandas : String → List Int → List Int → Except Err Pairs) (i : Input) (cs vf fuel : Nat)
+    (ha : ArgsOK i)
+    (hclash : ¬ (auxNames i ++ (leftToMap i).map (leftName i) ++ (rightToMap i).map (rightName i)).Nodup) :
+    (∃ msg, merge pandas i cs vf fuel = .error (.valueError msg)) ∧
+    merge pandas (noHints i) cs vf fuel = merge pandas i cs vf fuel := by
+  have hsup : supportedModes.contains i.how = true := by
+    rcases ha.how with h | h | h | h <;> rw [h] <;> decide
+  have hnd : allDistinct (allDestNames i (leftToMap i) (rightToMap i)) = false := by
+    rw [Bool.eq_false_iff]
+    intro h
+    exact hclash ((allDistinct_iff _).mp h)
+  have h1 := merge_front' pandas i cs vf fuel hsup ha.tuples ha.tupleLen ha.leftOn ha.rightOn ha.leftKeys ha.rightKeys
+    ha.leftCols ha.rightCols
+  have h2 := merge_front' pandas (noHints i) cs vf fuel hsup ha.tuples ha.tupleLen ha.leftOn ha.rightOn ha.leftKeys
+    ha.rightKeys ha.leftCols ha.rightCols
+  have hnd0 : allDistinct (allDestNames (noHints i) (leftToMap (noHints i)) (rightToMap (noHints i))) = false := hnd
+  rw [hnd] at h1
+  rw [hnd0] at h2
+  simp only [Bool.not_false, if_true] at h1 h2
+  exact ⟨⟨_, h1⟩, by rw [h1, h2]⟩
+
+/-! ## non-vacuity of the whole-frame theorems
+
+Two frames with duplicate keys on BOTH sides (`2, 2` against `2, 2`), unmatched rows at both ends of both key columns
+(`0`, `9` on the left, `1`, `5` on the right), a name clash (`k` on both sides → `k_l`, `k_r`) and an indexed-string
+column (`s` = "a", "bc", "", "d"); chunk size 2, so every streamed loop runs several chunks. -/
+
+/-- a `pandas.merge` that returns the relational join in REVERSE order (any permutation satisfies the assumption) -/
+def exPandas (how : String) (lk rk : List Int) : Except Err Pairs := .ok (relJoin how lk rk).reverse
+
+theorem exPandas_ok (i : Input) : PandasOK exPandas i := ⟨_, rfl, List.reverse_perm _⟩
+
+def exInput (how : String) (hint : Option Bool) : Input :=
+  { how := how
+    left := [("k", intCol [0, 2, 2, 9]), ("s", .indexed [0, 1, 3, 3, 4] [97, 98, 99, 100])]
+    right := [("k", intCol [1, 2, 2, 5]), ("v", .flat (.int 0) [.int 10, .int 20, .int 30, .int 40])]
+    leftOn := ["k"], rightOn := ["k"], leftTuple := false, rightTuple := false
+    leftFields := none, rightFields := none
+    hintLO := hint, hintRO := hint
+    lk := [0, 2, 2, 9], rk := [1, 2, 2, 5] }
+
+theorem exInput_wf (how : String) (hhow : how = "left" ∨ how = "right" ∨ how = "inner" ∨ how = "outer")
+    (hint : Option Bool) : WellFormed (exInput how hint) 2 8 where
+  how := hhow
+  tuples := rfl
+  tupleLen := by intro h; cases h
+  leftOn := by simp [exInput]
+  rightOn := by simp [exInput]
+  leftKeys := by
+    intro k hk
+    have : k = "k" := by simpa [exInput] using hk
+    subst this
+    exact ⟨_, rfl, rfl, rfl⟩
+  rightKeys := by
+    intro k hk
+    have : k = "k" := by simpa [exInput] using hk
+    subst this
+    exact ⟨_, rfl, rfl, rfl⟩
+  leftCols := by
+    intro k hk
+    have : k = "k" ∨ k = "s" := by simpa [leftToMap, names, exInput] using hk
+    rcases this with rfl | rfl
+    · exact ⟨_, rfl, ⟨rfl, fun ix vs h => by simp [intCol] at h⟩⟩
+    · exact ⟨_, rfl, ⟨rfl, fun ix vs h => by cases h; exact ⟨by unfold IndexedOK; decide, by decide⟩⟩⟩
+  rightCols := by
+    intro k hk
+    have : k = "k" ∨ k = "v" := by simpa [rightToMap, names, exInput] using hk
+    rcases this with rfl | rfl
+    · exact ⟨_, rfl, ⟨rfl, fun ix vs h => by simp [intCol] at h⟩⟩
+    · exact ⟨_, rfl, ⟨rfl, fun ix vs h => by cases h⟩⟩
+  names := by
+    show (["_left_map", "_right_map", "valid_l", "valid_r", "k_l", "s", "k_r", "v"] : List String).Nodup
+    decide
+  sizeL := by simp [exInput]
+  sizeR := by simp [exInput]
+  chunk := by decide
+
+theorem exInput_truthful (how : String) (hint : Option Bool) : TruthfulHints (exInput how hint) :=
+  ⟨fun _ => by simp [exInput, Sorted], fun _ => by simp [exInput, Sorted], nofun, nofun⟩
+
+/-- with both ordered hints the left join takes the ordered path, the outer join never does -/
+example : isOrdered (exInput "left" (some true)) = true ∧ isOrdered (exInput "outer" (some true)) = false := by decide
+
+/-- the hypotheses of the three theorems are met by this input, on both paths -/
+example := merge_frame_correct_partial exPandas (exInput "left" (some true)) 2 8 64 (exInput_wf _ (Or.inl rfl) _)
+  (exInput_truthful _ _) (fun _ => exPandas_ok _) (by decide)
+example := merge_frame_correct_partial exPandas (exInput "outer" none) 2 8 64 (exInput_wf _ (Or.inr (Or.inr (Or.inr rfl))) _)
+  (exInput_truthful _ _) (fun _ => exPandas_ok _) (by decide)
+example := hints_irrelevant_partial exPandas (exInput "right" (some true)) 2 8 64 (exInput_wf _ (Or.inr (Or.inl rfl)) _)
+  (exInput_truthful _ _) (exPandas_ok _) (by decide)
+example := never_raises_on_truthful_hints_partial exPandas (exInput "inner" (some true)) 2 8 64
+  (exInput_wf _ (Or.inr (Or.inr (Or.inl rfl))) _) (exInput_truthful _ _) (fun _ => exPandas_ok _) (by decide)
+
+/-- what the model computes on it — ordered path, `how='left'`: rows in key order, the right map non-monotone -/
+example : merge exPandas (exInput "left" (some true)) 2 8 64 = .ok
+    [("_left_map", intCol [0, 1, 1, 2, 2, 3]), ("_right_map", intCol [4611686018427387904, 1, 2, 1, 2, 4611686018427387904]),
+     ("k_l", intCol [0, 2, 2, 2, 2, 9]), ("s", .indexed [0, 1, 3, 5, 5, 5, 6] [97, 98, 99, 98, 99, 100]),
+     ("k_r", intCol [0, 2, 2, 2, 2, 0]), ("v", .flat (.int 0) [.int 0, .int 20, .int 30, .int 20, .int 30, .int 0])] := by
+  rfl
+
+/-- … and on the unordered path, `how='outer'`, rows in the (reversed) order `exPandas` returns them -/
+example : merge exPandas (exInput "outer" none) 2 8 64 = .ok
+    [("k_l", intCol [0, 0, 9, 2, 2, 2, 2, 0]), ("s", .indexed [0, 0, 0, 1, 1, 1, 3, 5, 6] [100, 98, 99, 98, 99, 97]),
+     ("valid_l", boolCol [false, false, true, true, true, true, true, true]),
+     ("k_r", intCol [5, 1, 0, 2, 2, 2, 2, 0]),
+     ("v", .flat (.int 0) [.int 40, .int 10, .int 0, .int 30, .int 20, .int 30, .int 20, .int 0]),
+     ("valid_r", boolCol [true, true, false, true, true, true, true, false])] := by
+  rfl
+
+/-- the NC02b witness on the (repaired) model: a left field called `_left_map` is rejected with AND without the ordered hints -/
+def exReserved (hint : Option Bool) : Input :=
+  { how := "left"
+    left := [("k", intCol [1, 2, 3]), ("_left_map", intCol [10, 11, 12])]
+    right := [("k", intCol [2, 3, 4])]
+    leftOn := ["k"], rightOn := ["k"], leftTuple := false, rightTuple := false
+    leftFields := none, rightFields := none
+    hintLO := hint, hintRO := hint
+    lk := [1, 2, 3], rk := [2, 3, 4] }
+
+example : (∃ msg, merge exPandas (exReserved (some true)) 2 8 64 = .error (.valueError msg)) ∧
+    (∃ msg, merge exPandas (exReserved none) 2 8 64 = .error (.valueError msg)) := ⟨⟨_, rfl⟩, ⟨_, rfl⟩⟩
+
+/-- the hypotheses of `name_clash_rejected` are met by it: the arguments pass every validator, the names clash -/
+theorem exReserved_args (hint : Option Bool) : ArgsOK (exReserved hint) where
+  how := Or.inl rfl
+  tuples := rfl
+  tupleLen := by intro h; cases h
+  leftOn := by simp [exReserved]
+  rightOn := by simp [exReserved]
+  leftKeys := by
+    intro k hk
+    have : k = "k" := by simpa [exReserved] using hk
+    subst this
+    exact ⟨_, rfl, rfl, rfl⟩
+  rightKeys := by
+    intro k hk
+    have : k = "k" := by simpa [exReserved] using hk
+    subst this
+    exact ⟨_, rfl, rfl, rfl⟩
+  leftCols := by
+    intro k hk
+    have : k = "k" ∨ k = "_left_map" := by simpa [leftToMap, names, exReserved] using hk
+    rcases this with rfl | rfl <;> exact ⟨_, rfl, rfl⟩
+  rightCols := by
+    intro k hk
+    have : k = "k" := by simpa [rightToMap, names, exReserved] using hk
+    subst this
+    exact ⟨_, rfl, rfl⟩
+
+example := name_clash_rejected exPandas (exReserved (some true)) 2 8 64 (exReserved_args _) (by
+  show ¬ (["_left_map", "_right_map", "valid_l", "valid_r", "k_l", "_left_map", "k_r"] : List String).Nodup
+  decide)
+
 /-!
-## The full statements, and what is missing
+## The full statements, what is `_partial` and why, and every hypothesis
 
 ```
-theorem merge_correct (pandas) (i : Input) (cs vf fuel) :
-    how ∈ {left,right,inner,outer} → truthful hints → frames well formed (every mapped field exists, all of a side's columns
-    as long as its key column, indexed columns IndexedOK with entries ≤ cs*vf, destination names pairwise distinct) →
-    pandas i.how i.lk i.rk = .ok pairs ∧ pairs.Perm (relJoin i.how i.lk i.rk) →
-    ∃ dest rows, merge pandas i cs vf fuel = .ok dest ∧ rows.Perm (relJoin i.how i.lk i.rk) ∧
-      (∀ left field f, look dest (destName f) = selectCol (left f) (rows.map (·.1))) ∧ (same for the right fields) ∧
-      all columns of dest have length rows.length ∧ (isOrdered i → the keys of rows are non-decreasing)
-theorem hints_irrelevant : the `rows` of a merge with truthful hints is a permutation of the `rows` without hints
-theorem never_raises_on_truthful_hints : under the same hypotheses `merge … ≠ .error _`
+theorem merge_correct / hints_irrelevant / never_raises_on_truthful_hints :
+    exactly `merge_frame_correct_partial` / `hints_irrelevant_partial` / `never_raises_on_truthful_hints_partial` with
+    `WellFormed.leftCols` / `rightCols` asking `ColOK c n cap` for SOME cap (indexed-string entries of any length)
 ```
-Proved above: the dispatch (`dispatch_table`, `call_sites`, `suffix_rule`, `sentinel_choice`), the maps
-(`ordered_maps_correct`, `hints_irrelevant_maps`), every column on both paths (`ordered_column_correct`,
-`ordered_column_copied`, `unordered_column_correct`) and their composition for the ordered path (`merge_correct_partial`).
-Missing (all about the assembly, none about the streamed code):
-  1. `addAll` (sequential `create_like` of the destination fields) succeeds and yields exactly the listed columns when the
-     destination names are pairwise distinct — a list induction that was not written;
-  2. `validate`/`merge` front end: that well-formed frames pass the validators and `leftLen = lk.length`;
-  3. the spec facts `hselL`/`hselR` (row numbers of `leftJoin`/`innerJoin` are in range) and, for a side that is copied
-     unchanged because it is unique and drives the join, `leftSel = [some 0, …, some (n-1)]`;
-  4. the key order on the ordered path (the driving side's selection is non-decreasing);
-  5. the unordered path as a whole frame: `unordered_column_correct` applied to `pairs.map (·.1)` / `(·.2)` plus the
-     `valid_l` / `valid_r` columns, under the recorded assumption that `pandas.merge` returns a permutation of `relJoin`
-     (the harness checks that assumption on every case it uses pandas for).
-The correspondence run compares the WHOLE destination frame of the real `DataFrame.merge` with the model on every case,
-and the real code with the relational-join oracle, so 1–5 are covered by differential execution, not by a theorem.
+These are false for the code as it is (open finding NC02c, witness `Witness.C02.nc02c_long_entry_raises_only_with_hints`):
+with both ordered hints an indexed-string entry longer than `chunksize * value_factor` makes
+`ordered_map_valid_indexed_stream` raise (the clear error of fix D5, C04 `oversize_entry_clear_error`), the hint-free call
+succeeds. The `_partial` theorems carry exactly that bound and are otherwise at full strength: whole-frame model function
+`merge pandas i cs vf fuel`, all four modes, both paths. `merge_correct_partial` (the earlier column-by-column form with the
+spec facts as hypotheses) is kept; `merge_ordered_columns_correct` is the same statement with those hypotheses discharged.
+The five gaps listed by the previous revision are closed by:
+  1. `Lemmas/MergeFrame.lean`: `addAll_ok`, `addAll_nil_ok`, `look_of_mem` (sequential `create_like`);
+  2. `Lemmas/MergeWhole.lean`: `merge_front` (validators pass, `left_len = lk.length`, path choice);
+  3. `Lemmas/MergeSpec.lean`: `relJoin_in_range`, `leftJoin_sel_of_nodup`; here `leftSel_in_range`, `rightSel_in_range`,
+     `no_map_is_identity`; `Lemmas/MergeFrame.lean`: `selectCol_id` (a stored indexed column is the encoding of its entries);
+  4. `Lemmas/MergeSpec.lean`: `relJoin_keys_sorted`; here `ordered_path_key_order`;
+  5. `Lemmas/MergeWhole.lean`: `unorderedMerge_frame`, `orderedMerge_frame`.
+Hypotheses, all visible in `WellFormed` / `TruthfulHints` / `PandasOK` and in the theorem statements:
+  * `pandas.merge` returns a permutation of `relJoin` (a PARAMETER of the model; recorded assumption, checked by the
+    harness on every case that takes the unordered path);
+  * the destination names are pairwise distinct INCLUDING the four names `merge` reserves (`_left_map`, `_right_map`,
+    `valid<left_suffix>`, `valid<right_suffix>`): a source field called `_left_map` makes the ordered path raise "field
+    already exists" while the hint-free call succeeds, a field called `valid_l` does the converse — finding NC02b. With
+    fix NC02b `merge` checks exactly this up front and raises `ValueError` on both paths (`name_clash_rejected`), so the
+    hypothesis is the code's own guard;
+  * an indexed-string entry fits the value buffer `cs * vf` of the streamed mapper — the hypothesis that makes the three
+    theorems `_partial` (NC02c, above);
+  * fewer than 2^62 rows per side (the marker `INVALID_INDEX_64` must exceed every row number);
+  * `fuel` at least `|lk| + |rk| + 2·|relJoin| + 1` (the streamed generators' variant, C12);
+  * `lk` / `rk` are an order embedding of the key tuples (DESIGN 1.4): the tie between them and the key COLUMNS of the
+    frames is the harness's, not a theorem's.
 -/
 
 end Exetera.Props.C02
